@@ -116,7 +116,12 @@ def check(repo: Repo, rep: Report) -> None:
         return None
     pops = [s for s in sites(run) if (ev(s.node) or "").startswith("POP")]
     rels = [s for s in sites(run) if ev(s.node) == "RELEASE"]
-    rep.require(pops and rels, "pop and release in run")
+    if not (pops and rels):
+        rep.ob("Q4-release-with-emptiness", run, "run takes ONE queued notification per turn (pop under the lock) and releases ownership when none is left", False,
+               "ScheduledObserver.run no longer pops a single notification under the lock / releases ownership in the critical section that found the "
+               "queue empty (a batch copied and cleared, ...): producers append without the lock — a notification enqueued in between is dropped, or left "
+               "behind with the drain marked as still running")
+        return
     for s in pops:
         g = any(u(e).endswith(".queue") and p for e, p in s.ctx.guards)
         rep.ob("Q4-release-with-emptiness", run, short(s.node), cl.held(s) and g and ev(s.node) == "POP:0",
